@@ -241,3 +241,55 @@ func init() {
 	addMutant(Mutant{Prop: "C05", Name: "encoderune-2byte-returns-1", File: "runtime/internal/runtime/utf8.go",
 		Old: "\t\tp[1] = tx | byte(r)&maskx\n\t\treturn 2", New: "\t\tp[1] = tx | byte(r)&maskx\n\t\treturn 1", Expect: "R05.6 runtime.encoderune 2-byte arm"})
 }
+
+// checkStringEqualOrder (R05.7): two strings of different length are never equal; a pointer-identity shortcut
+// may only be consulted after the lengths were compared (s[:2] and s[:5] share their data pointer).
+func checkStringEqualOrder(c *Ctx, rp *packages.Package) {
+	c.Rule("R05.7", "string equality compares lengths before any data-pointer identity shortcut", 1)
+	fd := findFunc(rp, "StringEqual")
+	if fd == nil {
+		c.Undecided("R05.7", "runtime.StringEqual", 0, "function not found")
+		return
+	}
+	c.nfuncs++
+	g := buildCFG(rp, fd)
+	mentionsBoth := func(n ast.Node, field string) bool {
+		e, ok := n.(ast.Expr)
+		if !ok {
+			return false
+		}
+		x, y, _, isCmp := binCmp(e)
+		if !isCmp {
+			return false
+		}
+		return strings.HasSuffix(exprStr(x), "."+field) && strings.HasSuffix(exprStr(y), "."+field)
+	}
+	isLen := func(n ast.Node) bool { return nodeHas(n, func(x ast.Node) bool { return mentionsBoth(x, "len") }) }
+	isData := func(n ast.Node) bool { return nodeHas(n, func(x ast.Node) bool { return mentionsBoth(x, "data") }) }
+	hasLen, hasData := false, false
+	ast.Inspect(fd.Body, func(n ast.Node) bool {
+		if mentionsBoth(n, "len") {
+			hasLen = true
+		}
+		if mentionsBoth(n, "data") {
+			hasData = true
+		}
+		return true
+	})
+	if !hasLen {
+		c.Bad("R05.7", "runtime.StringEqual compares lengths first", fd.Pos(), "no comparison of the two lengths")
+		return
+	}
+	if !hasData {
+		c.OK("R05.7", "runtime.StringEqual compares lengths first", fd.Pos(), "lengths compared; no identity shortcut")
+		return
+	}
+	hit, reached := g.reach(g.entry(), isLen, isData, false, nil)
+	c.Check(!reached, "R05.7", "runtime.StringEqual compares lengths first", fd.Pos(), "x.len != y.len is tested on every path to the data-pointer comparison",
+		"the data pointers are compared ("+c.posStr(posOf(hit))+") on a path on which the lengths were not: s[:i] == s[:j] and s[len(s):] == s hold although the lengths differ")
+}
+
+func init() {
+	addMutant(Mutant{Prop: "C05", Name: "stringequal-identity-before-length", File: "runtime/internal/runtime/z_string.go",
+		Old: "\tif x.len != y.len {\n\t\treturn false\n\t}\n\tif x.data != y.data {", New: "\tif x.data == y.data {\n\t\treturn true\n\t}\n\tif x.len != y.len {\n\t\treturn false\n\t}\n\tif x.data != y.data {", Expect: "R05.7"})
+}
